@@ -357,19 +357,56 @@ func runC15(c *Check) {
 			}
 		}
 	}
-	// ---- R4
+	// ---- R4: the genesis writes are guarded by the *presence* of a key that the guarded
+	// region itself writes (a marker). A test on a stored value is not a marker: the genesis
+	// state root of an empty chain is the empty string.
 	{
 		g := BuildECFG(p, initc, ExpandOpts{MaxDepth: 0})
 		c.NoteGraph(g)
 		puts := g.Select(func(n *Node) bool { return dsCall(n, "Put") })
-		notInit := g.Select(EdgeWhere(func(t *Term, pol bool, n *Node) bool {
-			t, pol = normFact(t, pol)
-			return !pol && t.Op == "extract" && t.Name == "0" && t.Args[0].Op == "invoke" && strings.HasSuffix(t.Args[0].Name, ".Has") && strings.Contains(t.Args[0].String(), "genesisInitializedKey")
-		}))
-		if len(puts) == 0 || len(notInit) == 0 {
-			c.Bad("C15-R4", "InitChain ⟂ idempotent", fnName(initc), p.Pos(initc.Pos()), "no branch on Has(genesis-initialised key) guarding the genesis writes", nil)
-		} else {
-			c.Decide("C15-R4", "InitChain ⟂ idempotent", fnName(initc), p.InstrPos(puts[0].In), "genesis keys are written only when the chain is not initialised yet", "genesis keys can be rewritten on an initialised chain", g, g.MustPrecede(nodeSet(notInit), nodeSet(puts)))
+		written := map[string]bool{}
+		for _, pn := range puts {
+			if k := keyName(ArgTerm(pn, 1)); k != "" {
+				written[k] = true
+			}
+		}
+		// absent(f): the fact says "key K is not in the datastore"
+		absent := func(f Fact) string {
+			t, pol := normFact(f.Cond, f.Pol)
+			// Has(K)#0 is false
+			if t.Op == "extract" && t.Name == "0" && t.Args[0].Op == "invoke" && strings.HasSuffix(t.Args[0].Name, ".Has") && !pol && len(t.Args[0].Args) >= 3 {
+				return keyName(t.Args[0].Args[2])
+			}
+			// errors.Is(Get(K)#1, ErrNotFound) is true
+			if t.IsCall("errors.Is") && pol && len(t.Args) == 2 && t.Args[1].Op == "global" && strings.HasSuffix(t.Args[1].Name, "ErrNotFound") {
+				e := t.Args[0]
+				if e.Op == "extract" && e.Args[0].Op == "invoke" && strings.HasSuffix(e.Args[0].Name, ".Get") && len(e.Args[0].Args) >= 3 {
+					return keyName(e.Args[0].Args[2])
+				}
+			}
+			return ""
+		}
+		if len(puts) == 0 {
+			c.Unk("C15-R4", "InitChain ⟂ idempotent", fnName(initc), "", "anchor lost: InitChain writes nothing")
+		}
+		okAll, why := len(puts) > 0, ""
+		for _, pn := range puts {
+			pn := pn
+			marker := ""
+			for _, f := range g.NecessaryEdges(func(n *Node) bool { return n == pn }) {
+				if k := absent(f); k != "" && written[k] {
+					marker = k
+				}
+			}
+			if marker == "" {
+				okAll = false
+				why = "the write of " + trunc(ArgTerm(pn, 1).String(), 60) + " is not behind a test that a key written by InitChain itself is absent from the datastore (a test on a stored value is not a marker: the genesis root of an empty chain is empty)"
+			}
+		}
+		if okAll {
+			c.OK("C15-R4", "InitChain ⟂ idempotent", fnName(initc), p.InstrPos(puts[0].In), "genesis keys are written only when a marker key that InitChain itself writes is absent", true)
+		} else if len(puts) > 0 {
+			c.Bad("C15-R4", "InitChain ⟂ idempotent", fnName(initc), p.InstrPos(puts[0].In), why+": a later InitChain recomputes and overwrites the genesis root from the current contents", nil)
 		}
 	}
 	c.MinInstances("C15-R1", 5)
